@@ -63,6 +63,22 @@ package acl
 //@   property C28 C29
 //@   callee *Validator).CalculateAction
 //@   defines res0 == eacl.ActionAllow && res1 && err == nil ==> tableAllows()
+// The table is evaluated against the request's X-headers too (records may filter on them): on
+// every path - first check on the request, re-check on a response, re-check on the object
+// header in binary form - the header source is given the original request.
+//@ ghost field requestHeadersSupplied(x int) bool
+//@ callrule c28_request_headers_supplied in (*Checker).CheckEACL
+//@   property C28 C29
+//@   optional
+//@   callee eacl.WithServiceRequest, eacl.WithServiceResponse, eacl.WithRequestXHeaders
+//@   pureeffect
+//@   assigns requestHeadersSupplied
+//@   defines requestHeadersSupplied(0)
+//@ callrule c28_table_judged_with_the_request_headers in (*Checker).CheckEACL
+//@   property C28 C29
+//@   callee eacl.NewMessageHeaderSource
+//@   requires [header_source_knows_the_request] requestHeadersSupplied(0)
 //@ func (*Checker).CheckEACL
 //@   property C28 C29
+//@   valid !requestHeadersSupplied(0)
 //@   ensures [allowed_only_by_table_or_exemption] err == nil ==> !basicExtendable() || reqInfo.RequestRole == acl.RoleInnerRing || reqInfo.RequestRole == acl.RoleContainer || tableAllows() || storedTableNotFound()
